@@ -412,10 +412,17 @@ theorem str_perm_invariant (T : SpecSet) (it it' : List Member) (h : it.Perm it'
   simp only [SpecSet.str]
   rw [sortStr_perm_invariant (h.map fun m => m.1.str)]
 
-/-- the member's own string is a single clean clause that parses back to the member -/
-def Roundtrips (sp : Spec) : Prop := 44 ∉ sp.str ∧ strip sp.str = sp.str ∧ parseSpec sp.str = some sp
+/-- the member's own string is a single clean clause that parses back to the member: the model's decidable
+`SS.roundtrips`, which the driver evaluates on every constructed set (`rt=` in `set.parse`) -/
+def Roundtrips (sp : Spec) : Prop := roundtrips sp = true
 
 instance (sp : Spec) : Decidable (Roundtrips sp) := by unfold Roundtrips; infer_instance
+
+theorem Roundtrips.unpack {sp : Spec} (h : Roundtrips sp) :
+    44 ∉ sp.str ∧ strip sp.str = sp.str ∧ parseSpec sp.str = some sp := by
+  simp only [Roundtrips, roundtrips, Bool.and_eq_true, Bool.not_eq_eq_eq_not, Bool.not_true,
+    List.contains_eq_mem, decide_eq_false_iff_not, beq_iff_eq] at h
+  exact ⟨h.1.1, h.1.2, h.2⟩
 
 theorem Op.str_ne_nil (o : S.Op) : o.str ≠ [] := by cases o <;> decide
 
@@ -470,7 +477,7 @@ theorem str_parses_back (T : SpecSet) (hwf : WF T) (it : List Member) (hp : it.P
     · subst hnil; decide
     · rw [splitOn_join 44 _ (by simpa using hnil)]
       · rw [List.map_map]
-        have h1 : ∀ m ∈ srt, (strip ∘ fun m : Member => m.1.str) m = m.1.str := fun m hm => (hrt m (hmem m hm)).2.1
+        have h1 : ∀ m ∈ srt, (strip ∘ fun m : Member => m.1.str) m = m.1.str := fun m hm => (hrt m (hmem m hm)).unpack.2.1
         rw [List.map_congr_left h1]
         apply List.filter_eq_self.mpr
         intro s hs
@@ -481,13 +488,13 @@ theorem str_parses_back (T : SpecSet) (hwf : WF T) (it : List Member) (hp : it.P
         simpa using this
       · intro s hs
         obtain ⟨m, hm, rfl⟩ := List.mem_map.mp hs
-        exact (hrt m (hmem m hm)).1
+        exact (hrt m (hmem m hm)).unpack.1
   have hparse : parseAll (clauses (T.str it)) = some (srt.map (·.1)) := by
     rw [hcl]
     have := parseAll_map_str (srt.map (·.1)) (by
       intro sp hsp'
       obtain ⟨m, hm, rfl⟩ := List.mem_map.mp hsp'
-      exact (hrt m (hmem m hm)).2.2)
+      exact (hrt m (hmem m hm)).unpack.2.2)
     rw [List.map_map] at this
     exact this
   obtain ⟨ms, hms⟩ : ∃ ms : List Member, ms = (srt.map (·.1)).map fun sp => (sp, none) := ⟨_, rfl⟩
